@@ -226,6 +226,94 @@ def run(ctx):
     r = ctx.rule("C10-R5", "SIBLING", "leaving quiet mode / raising the verbosity on an I/O reaches the standard AND the error output on every path "
                  "(no early return on the state of one of them; same rule as C09-R6)", reference=2)
     io_setters_rule(ctx, r, ("set_quiet", "set_verbosity"))
+
+    # ---------------------------------------------------------------- R6
+    r = ctx.rule("C10-R6", "TABLE", "the message-level flags are independent bits (the gate tests them with &): NORMAL is 0, VERBOSE / VERY_VERBOSE / DEBUG are distinct powers of two", reference=4)
+    fmod = p.modules.get("clikit.api.io.flags")
+    ctx.require(fmod is not None, "clikit.api.io.flags missing")
+    vals = {}
+    for name_ in ("NORMAL", "VERBOSE", "VERY_VERBOSE", "DEBUG"):
+        v = fmod.assigns.get(name_)
+        if not (isinstance(v, ast.Constant) and isinstance(v.value, int)):
+            r.fail(fmod, v, "flags.%s not an integer literal" % name_, "flags.%s is not an integer literal" % name_)
+            continue
+        vals[name_] = v.value
+    for name_, v in sorted(vals.items()):
+        node = fmod.assigns[name_]
+        if name_ == "NORMAL":
+            (r.ok if v == 0 else (lambda d: r.fail(fmod, node, "flags.NORMAL = %d" % v, "NORMAL must be 0 (no level requested)")))("flags.NORMAL = 0")
+        elif v <= 0 or v & (v - 1):
+            r.fail(fmod, node, "flags.%s = %d" % (name_, v), "flags.%s = %d is not a single bit: a message flagged %s also passes the gate's `flags & <lower level>` tests and is shown below the level it asked for" % (name_, v, name_))
+        elif any(o != name_ and vals[o] == v for o in vals):
+            r.fail(fmod, node, "flags.%s = %d shared" % (name_, v), "two levels share the bit %d" % v)
+        else:
+            r.ok("flags.%s = %d" % (name_, v))
+
+    # ---------------------------------------------------------------- R7
+    r = ctx.rule("C10-R7", "OWNER", "quiet and verbosity change only when asked to: the fields the gate reads are written by the constructor and by their own setters only - no other "
+                 "method of an output writes them, directly or by re-running the constructor (`raising the verbosity or leaving quiet mode never removes anything`)", reference=2)
+    eff = ctx.effects
+    for fld in sorted(read):
+        own_setters = {m.name for c in [x for x in out_cls.mro if hasattr(x, "methods")] for m in c.methods.values()
+                       if m.name != "__init__" and any(k == "rebind" and any(isinstance(a, ast.Name) and a.id in m.params for a in walk_no_nested(n_.value)) for n_, k, t in q.writes_to_self_attr(m, fld) if isinstance(n_, ast.Assign))}
+        bad = None
+        reinit = None
+        for c in out_classes:
+            for name_, m in sorted(c.methods.items()):
+                if name_ == "__init__" or name_ in own_setters:
+                    continue
+                for ev in eff.events_in(m):
+                    if _rooted_self(ev.token) and ev.token == ("p", "self") and ev.kind.endswith("attr-store:" + fld):
+                        bad = (m, ev)
+                # re-running a constructor on self writes everything the constructor writes
+                for cs in cg.sites_in(m):
+                    for t in cs.targets:
+                        if t.name == "__init__" and t.cls is not None and cs.kind != "super" and isinstance(cs.node.func, ast.Attribute) and cs.node.func.attr == "__init__" \
+                                and any(q.writes_to_self_attr(t, fld)) and (cs.node.args and isinstance(cs.node.args[0], ast.Name) and cs.node.args[0].id == "self"
+                                                                           or isinstance(cs.node.func.value, ast.Name) and cs.node.func.value.id == "self"):
+                            reinit = (m, cs)
+        if reinit and not bad:
+            m, cs = reinit
+            r.fail(m, cs.node, "%s re-runs the constructor (resets self.%s)" % (m.name, fld), "%s calls %s on the live object: the constructor also resets self.%s, so e.g. replacing the formatter "
+                   "silently takes an output out of quiet mode and back to normal verbosity" % (m.short, norm(cs.node.func), fld))
+        elif bad:
+            m, ev = bad
+            r.fail(m, ev.node, "%s writes self.%s: %s" % (m.name, fld, norm(ev.origin_event().node)), "%s changes the gate field self.%s although it is not its setter (%s): e.g. replacing the formatter "
+                   "silently takes an output out of quiet mode and back to normal verbosity" % (m.short, fld, ev.chain()), chain=ev.chain())
+        else:
+            r.ok("self.%s written only by the constructor and %s" % (fld, ", ".join(sorted(own_setters)) or "-"))
+
+    # ---------------------------------------------------------------- R8
+    r = ctx.rule("C10-R8", "GUARD", "the I/O facade adds no gate of its own: each writing method of IO reaches its delegation to the output on every path (a shortcut on "
+                 "`self.is_quiet()` would judge the error output by the standard output's state)", reference=8)
+    for c in io_classes:
+        for name_, m in sorted(c.methods.items()):
+            if not (name_.startswith("write") or name_.startswith("error")) or name_ in ("error_output",):
+                continue
+            cfg = ctx.cfg(m)
+            dele = {n.id for x in q.calls(m) if isinstance(x.func, ast.Attribute) and is_self_attr(x.func.value) and x.func.attr.startswith("write") for n in cfg.nodes_of(x)}
+            if not dele:
+                continue
+            if cfg.post_dominated_by(cfg.entry.id, dele):
+                r.ok("%s: delegates on every path" % m.short)
+            else:
+                r.fail(m, m.node, "%s can return without delegating" % m.short, "%s has a path that returns before handing the text to its output: the facade decides by itself (on state that belongs "
+                       "to one of the two outputs) whether text is shown" % m.short)
+
+    # ---------------------------------------------------------------- R9
+    r = ctx.rule("C10-R9", "ATOMIC", "a rejected verbosity is not the verbosity: in the setters of the gate fields no write of the field precedes a raise", reference=2)
+    for c in [x for x in out_cls.mro if hasattr(x, "methods")]:
+        for name_, m in sorted(c.methods.items()):
+            if not name_.startswith("set_") or not any(q.writes_to_self_attr(m, f_) for f_ in read):
+                continue
+            cfg = ctx.cfg(m)
+            ws = [n for n in cfg.nodes if n.kind == "stmt" and isinstance(n.ast, (ast.Assign, ast.AugAssign)) and any(is_self_attr(t) and t.attr in read for t in (n.ast.targets if isinstance(n.ast, ast.Assign) else [n.ast.target]))]
+            rz = [n for n in cfg.nodes if n.kind == "raise"]
+            bad = [(w, z) for w in ws for z in rz if z.id in cfg.reach([w.id])]
+            if bad:
+                r.fail(m, bad[0][0].ast, norm(bad[0][0].ast) + " before its check", "%s stores the value (%s) and validates afterwards: a rejected level is what the gate then compares against" % (m.short, norm(bad[0][0].ast)))
+            else:
+                r.ok("%s: %d check(s) precede the store" % (m.short, len(rz)))
     return ctx.results
 
 
